@@ -4,7 +4,15 @@ spec/ctfe/CTFEFaults.tla: the complete finite matrix (endpoint x RPC x gRPC code
 position x masking; endpoint x bad-parameter class) with the status class the property demands.  Binding: every case
 is executed on a real ctfe.Instance whose backend replies are rewritten by an interceptor; status class, absence of an
 SCT, RequestLog calls, masking, absence of backend calls for bad requests, and panics are checked.
+
+Schedules (spec/ctfe/CTFETrace.tla over CTFE.tla): requests overlap.  The harness parks the backend call of one
+request inside the backend, sends further requests (mostly the same endpoint of the same front end, half of them the
+very same request), lets the tree grow, and only then lets the parked call fail (refusal or lost reply).  Every request
+is the events Inv / Call / Ret; trace validation demands that a reply is the one the request's own backend call
+explains (OwnBackendCall) - a 200 get-sth without a call of its own is acceptable only with a head that a successful
+root fetch delivered while the request was pending (SharedFetch).
 """
+from props import ctfe_common
 from vlib import Infra
 
 LEVEL = "fault_enumeration"
@@ -25,3 +33,9 @@ def run(ctx, replay=None):
     ctx.exhaustive = True
     path = ctx.write_ndjson("cases.ndjson", cases)
     ctx.go_test("cctfe", run="TestFaults$", env={"VERIF_CASES": path}, timeout=3000)
+    if replay:
+        return
+    # schedules: overlapping requests and a failing backend call.  The backend call of one request is parked inside the
+    # backend until other requests have arrived and then fails; CTFETrace.tla demands that every reply is the one the
+    # request's own backend call explains (a 200 get-sth needs a successful root fetch inside its own interval).
+    ctfe_common.concurrent_traces(ctx, "C08")
